@@ -347,6 +347,6 @@ Print Assumptions C08_leaf_is_forwarded.
 From Coq Require Import List String.
 Import ListNotations.
 Theorem C08_leaf_reads_exports :
-  Leaf.L_exports_Exports_is_forwarded_args = ["self.datadir.VirtualAddress : u32"%string; "self.datadir.Size : u32"%string; "rva : u32"%string].
+  Leaf.L_exports_Exports_is_forwarded_args = ["self.datadir.VirtualAddress : u32"%string; "self.datadir.Size : u32"%string; "arg1 : u32"%string].
 Proof. exact LeafExports.leaf_reads_exports. Qed.
 Print Assumptions C08_leaf_reads_exports.
